@@ -43,7 +43,7 @@ ASSUMPTIONS = [
     "without any model",
     "the module global `math` of type_checker.py is wrapped so that math.isnan(<int or Fraction>) is False without conversion",
     "hash-consing tables keyed syntactically (S2')",
-    "a constant divisor is a concrete integer from the pool -3, -1, 2, 5 and a parameter used as a divisor is not point-typed "
+    "a constant divisor is a concrete integer from the pool -3, -1, 2, 5 and in an expression with a division no parameter is point-typed "
     "(exact Fraction division of the type bounds by a SYMBOLIC integer loops in gcd under CrossHair); divisor sub-expressions "
     "built from parameters and constants are unrestricted; a divisor of point type 0 is not well-formed (ZeroDivisionError "
     "in the type checker) and pruned",
@@ -128,6 +128,7 @@ def _world(ctx, kinds, sym_fluent_bounds=False):
             prob.add_fluent(w.fl["U"])
         act = InstantaneousAction("a", _env=env, **{n.lower(): t for n, t in ptypes.items()})
         w.par = {n: act.parameter(n.lower()) for n in ptypes}
+    w.param_types = list(ptypes.values())
     # an effect makes F0 / F1 non-static (f := f in a second action: type-compatible whatever the bounds are)
     with ctx.untraced():
         act2 = InstantaneousAction("b", _env=env)
@@ -183,9 +184,8 @@ def _build(ctx, w, shape, leaves, kinds_it, ops, text):
         # (division of the bounds by a symbolic integer loops in Fraction's gcd); a parameter divisor is not point-typed
         ctx.assume(not (subs[0][1] and subs[1][1]))
         ctx.assume(not subs[1][1] or subs[1][2] == "Cd")
-        if subs[1][2] in ("P0", "P1", "R"):
-            t = args[1].type
-            ctx.assume(t.lower_bound < t.upper_bound)
+        for pt in w.param_types:  # no point-typed parameter next to a division (see ASSUMPTIONS)
+            ctx.assume(pt.lower_bound < pt.upper_bound)
     mk = {"+": em.Plus, "-": em.Minus, "*": em.Times, "/": em.Div}[op]
     e = mk(*args) if shape[0] == "n" else mk(args[0], args[1])
     return e, all(s[1] for s in subs), None
@@ -289,8 +289,7 @@ def h_linear(ctx, shape, combos=None, kinds=None, op_lists=None, ops=None, sym_f
         ctx.check(not is_linear, f"structural:{why}", f"{skel}: simplified to an expression with a {why.replace('-', ' ')} "
                   f"but reported as linear")
     if not is_linear:
-        ctx.check(len(pos) == 0 and len(neg) == 0, "nonlinear-with-fluents", f"{skel}: not linear but fluent sets are not empty")
-        ctx.witness("nonlinear")
+        ctx.witness("nonlinear")  # nothing is claimed about the fluent sets of a non-linear expression
         return
     for fe in sorted(set(pos) | set(neg), key=lambda x: x.fluent().name):
         ctx.check(fe.is_fluent_exp(), "result-shape", "a reported fluent is not a fluent expression")
